@@ -15,7 +15,9 @@ A2_LOW_CSV = ['[amount<100]', '[amount<=99.5]', '[amount<100]', '[amount<100]', 
 LOW_AMOUNTS = [0.0, 0.0, 50.0, -20.0]
 AE_FORMS = ['field.kind == "ach"', 'contains(field.kind, "AC")', 'field.kind.lower() == "ach"',
             '"ACH" in field.kind', 'startswith(field.kind, "ach")']
-DYN_FORMS = ['{field.proj}', '{ field.proj }', '{extract(field.proj, "(P\\\\w+)")}', '{trim(field.proj)}']
+DYN_FORMS = ['{field.proj}', '{ field.proj }', '{extract(field.proj, "(P\\\\w+)")}', '{trim(field.proj)}',
+             # case-sensitive pieces inside the expression text (\\S is not \\s, "X" is not "x"): the text is an expression, not a tag
+             '{extract(field.proj, "(P\\\\S+)")}', '{regex_replace(field.proj, "\\\\W", "")}', '{split(field.proj + "Zq", "Z", 0)}']
 CATS = {'C1': 'Food', 'C2': 'Bills & Utilities'}
 SUBS = {'S1': 'Sub One', 'S2': 'Sub Two'}
 MERCH = {'M1': 'Merch One', 'M2': 'Merch-Two'}
